@@ -25,9 +25,10 @@ const (
 	KRef
 	KLTrim
 	KRTrim
+	KSuppress // combinator.SuppressError: same results, the error is dropped
 )
 
-var kindNames = []string{"Term", "Empty", "SeqOf", "SeqTry", "SeqFirstOrAll", "Any", "Choice", "Opt", "Many", "Many1", "SepBy", "SepBy1", "Ref", "LTrim", "RTrim"}
+var kindNames = []string{"Term", "Empty", "SeqOf", "SeqTry", "SeqFirstOrAll", "Any", "Choice", "Opt", "Many", "Many1", "SepBy", "SepBy1", "Ref", "LTrim", "RTrim", "SuppressError"}
 
 func (k Kind) String() string { return kindNames[k] }
 
@@ -203,7 +204,7 @@ func exprNullable(nt []bool, e *Expr) bool {
 			}
 		}
 		return true
-	case KSeqTry, KSeqFirstOrAll, KMany1, KSepBy1, KLTrim, KRTrim:
+	case KSeqTry, KSeqFirstOrAll, KMany1, KSepBy1, KLTrim, KRTrim, KSuppress:
 		return exprNullable(nt, e.Kids[0])
 	}
 	return true
@@ -221,7 +222,7 @@ func leftCorners(g *Grammar) []map[int]bool {
 			if h, ok := acc[e.NT]; !ok || (h && !hid) {
 				acc[e.NT] = hid
 			}
-		case KAny, KChoice, KOpt, KMany, KMany1, KLTrim, KRTrim:
+		case KAny, KChoice, KOpt, KMany, KMany1, KLTrim, KRTrim, KSuppress:
 			for _, k := range e.Kids {
 				lc(k, hid, acc)
 			}
